@@ -537,6 +537,26 @@ def shrink(case, still_fails, seconds=45):
     return best
 
 
+def private_copies(paths):
+    """Copies of the harness / driver executables in a directory of this process, removed at exit: a long sweep must not depend
+    on files that a concurrent run may relink (lean/.lake/build/bin) or that another check's build-cache purge may remove
+    (/var/tmp/janet-verif/<hash> is purged after 30 minutes without use; /repo HEAD may move while a thorough run is going)."""
+    import atexit
+    import shutil
+    import tempfile
+    d = tempfile.mkdtemp(prefix="c12-%d-" % os.getpid(), dir="/var/tmp")
+    atexit.register(shutil.rmtree, d, True)
+    out = []
+    for p_ in paths:
+        if p_ is None:
+            out.append(None)
+            continue
+        q = os.path.join(d, os.path.basename(p_))
+        shutil.copy2(p_, q)
+        out.append(q)
+    return out
+
+
 def tieskel_failures(ctx):
     """names of the theorems of Peg/TieSkel.lean in which lake reported an error (from the build log)"""
     import re
@@ -625,6 +645,7 @@ def run(ctx, only_cases=None):
     except BuildError as e:
         hx_exe = None
         broken.append("harness does not compile against the current tree: %s" % str(e)[-400:])
+    hx_exe, drv = private_copies([hx_exe, drv])
     n = 2400 if quick else 180000
     if broken:
         n *= 3          # something no longer checks: search harder for a concrete failing input
@@ -645,10 +666,23 @@ def run(ctx, only_cases=None):
     if hx_exe and drv:
         solo = [c for c in cases if "solo" in c.origin]      # scenarios that may abort the process run alone
         rest = [c for c in cases if "solo" not in c.origin]
-        nchunks = max(1, min(32, len(rest) // 40))
+        # small chunks: the time one chunk takes must not depend on the size of the sweep (a loaded box must not turn a big
+        # chunk into a "hang"); quick: <= 32 chunks of ~110 cases, thorough: chunks of ~300 cases
+        nchunks = max(1, min(32, len(rest) // 40)) if quick else max(1, len(rest) // 300)
         chunks = [[c] for c in solo] + [rest[i::nchunks] for i in range(nchunks)]
+        def one(ch):
+            try:
+                ctx.build._touch()          # keep the build directory of this tree alive during a long sweep
+            except (OSError, AttributeError):
+                pass
+            t0 = 120 if quick else 300
+            cr = run_chunk(hx_exe, drv, ch, leak, t0)
+            if cr and cr["rc"] is None:
+                # timeout: once more, alone and with four times the budget, before calling it a hang (load, not the input)
+                cr = run_chunk(hx_exe, drv, ch, leak, 4 * t0)
+            return cr
         with cf.ThreadPoolExecutor(16) as ex:
-            res = list(ex.map(lambda ch: run_chunk(hx_exe, drv, ch, leak, 120 if quick else 900), chunks))
+            res = list(ex.map(one, chunks))
         crashes = [r for r in res if r]
         for c in cases:
             stats["harness_lines"] += 1 + len(c.real) + len(c.scan)
